@@ -34,8 +34,29 @@ def arms(I, v, guards=()):
     return [(guards, v)]
 
 
-def gkey(guards):
-    return tuple((k, pol) for k, pol, _c in guards)
+_GK = {}
+
+
+def gkey(guards, I=None):
+    """guards keyed semantically: a comparison is keyed by the normal form of (rhs - lhs), so
+    'mp == 0' and 'p == 1' (mp = 1 - p) are the same guard"""
+    out = []
+    for k, pol, c in guards:
+        kk = k
+        if I is not None and c.op == "Compare":
+            if "pr" not in _GK or _GK.get("I") is not I:
+                from ..facets.poly import PolyFacet
+                from ..facets.pred import Pred
+                _GK["I"] = I
+                _GK["pr"] = Pred(I, poly=PolyFacet(I))
+            f = _GK["pr"].formula(c)
+            neg = False
+            while f[0] == "not":
+                f, neg = f[1], not neg
+            if f[0] == "atom":
+                kk, pol = ("sem",) + tuple(f[1]), (pol != neg)
+        out.append((kk, pol))
+    return tuple(out)
 
 
 def guards_on_all_paths(root, target):
@@ -187,8 +208,8 @@ def run(ck, ctx):
 
     # ---------------------------------------------------------------- R12.3 reciprocity
     def r123():
-        an = {gkey(gs): (gs, v) for gs, v in arms(I, norm)}
-        aw = {gkey(gs): (gs, v) for gs, v in arms(I, wsum)}
+        an = {gkey(gs, I): (gs, v) for gs, v in arms(I, norm)}
+        aw = {gkey(gs, I): (gs, v) for gs, v in arms(I, wsum)}
         keys = set(an) & set(aw)
         ck.ob("R12.3", "spec_norm and sum_spec_weights branch on the same conditions", set(an) == set(aw), norm,
               func, f"{len(an)} vs {len(aw)} alternatives, {len(keys)} in common")
